@@ -44,6 +44,9 @@ TOL_MODEL_AB = (1e-6, 1e-7)      # mixtures of adjusted binomials: alpha = numer
                                  # binomial variance is close to the two-point variance (measured worst 2e-9)
 TOL_MASS_INDEP = 1e-12            # per credit: |Σ-1| <= n*TOL
 TOL_MASS_GC = 2e-8                # truncation at ±6 (2e-9) + rectangle rule; measured <= 4e-9
+NOISE_ID = 'C17/adj-binomial-alpha-denominator-noise'
+EPS_N = 7.5e-8                    # Hull's N (Abramowitz-Stegun 26.2.17): documented absolute error bound
+EPS_M = 6e-7                      # bivariate normal M = phi2 (Drezner-Wesolowsky, 5 nodes, on Hull's N): measured worst 5.2e-7
 MEAN_TOL_BY_STEPS = [(100, 2e-6), (50, 2e-4), (0, 3e-2)]   # relative to Σ units; measured 5e-8 / 1e-5 / 5e-3
 
 
@@ -101,6 +104,7 @@ def run(ctx):
     quick = ctx.quick()
     meas = Meas()
     ops, checks = [], []      # driver ops and (component, impl array, case) for the correspondence
+    extra_atol = {}           # index into checks -> additional absolute tolerance (derived per case, see ab_noise_nodes)
 
     def case_of(**kw):
         return {k: (v.tolist() if hasattr(v, 'tolist') else v) for k, v in kw.items()}
@@ -304,7 +308,9 @@ def run(ctx):
                                    'C17/adj-binomial-alpha-outside-unit' if not (0.0 <= ab_alpha(p, lr) <= 1.0) else None),
                           clause='non-negative')
         if len(d) != n + 1 or not (abs(mass - 1) <= 1e-9):
-            ctx.violation('adjusted binomial does not sum to one', dict(cs, mass=mass), clause='mass-one')
+            ctx.violation('adjusted binomial does not sum to one', dict(cs, mass=mass),
+                          finding=(NOISE_ID if len(d) == n + 1 and abs(mass - 1) <= 1e-9 + 2.0
+                                   and bool(ab_noise_mask(np, p[None, :], lr)[0]) else None), clause='mass-one')
         if not (abs(mean - m) <= 1e-9 * n):
             ctx.violation('adjusted binomial: mean differs from sum p_i*l_i', dict(cs, mean=mean, expected=m),
                           finding='C17/adj-binomial-round-not-floor' if half else None, clause='mean')
@@ -315,8 +321,31 @@ def run(ctx):
             checks.append(('adj_binomial', d, cs))
     ctx.count('indep_loss_dbn_hetero_adj_binomial', n_cases, nontriv)
 
+    # conditional default probabilities within a few ulp of 1 (what the copula mixture feeds in at the tail nodes for high
+    # beta): the denominator of alpha cancels to rounding noise; witness family of C17/adj-binomial-alpha-denominator-noise
+    n_w = 0
+    for n in (80, 100, 125):
+        for pat in ([0.6, 1.0, 1.4], [0.4, 1.6], [0.5, 1.5], [0.75, 1.25], [1.0]):
+            lr = np.array([pat[i % len(pat)] for i in range(n)])
+            lr = lr / lr.mean()
+            for cpv in (1.0 - 2.0 ** -53, 1.0 - 2.0 ** -52, 1.0 - 3 * 2.0 ** -53, 1.0 - 1e-13, 1.0 - 1e-9, 2.0 ** -60, 1e-13):
+                cp = np.full(n, cpv)
+                d = LB.indep_loss_dbn_hetero_adj_binomial(n, cp, lr)
+                mass = float(d.sum())
+                noise = bool(ab_noise_mask(np, cp[None, :], lr)[0])
+                n_w += 1
+                meas.see('ab.near-one.mass' + ('.noise-denominator' if noise else ''), abs(mass - 1))
+                if not (abs(mass - 1) <= 1e-9):
+                    ctx.violation('adjusted binomial does not sum to one: v_approx - term cancels to rounding noise (clamped to 1e-30 '
+                                  'when it is exactly 0), alpha = numer/denom is ~1e16 and alpha*B + (1 - alpha) loses the mass',
+                                  case_of(fn='indep_loss_dbn_hetero_adj_binomial', num_credits=n, cond_probs_all_equal_to=cpv,
+                                          loss_ratio_pattern=pat, mass=mass, last_entry=float(d[-1])),
+                                  finding=NOISE_ID if noise and abs(mass - 1) <= 1e-9 + 2.0 else None, clause='mass-one')
+    ctx.count('adj_binomial_probabilities_near_one', n_w, n_w)
+
     rng = ctx.rng('abgc')
     n_cases = 120 if quick else 1500
+    n_noise_cases = [0]
     for t in range(n_cases):
         n = sample_n(rng)
         p = sample_p(rng, n)
@@ -333,22 +362,39 @@ def run(ctx):
         thr = np.array([norminvcdf(x) for x in p])
         capped = ab_cap_nodes(np, Nf, thr, b, steps, lr)
         illc = ab_illcond_nodes(np, Nf, thr, b, steps, lr)
-        meas.see('abgc.mass' + ('.illcond' if illc else ''), abs(mass - 1))
+        w_noise = ab_noise_nodes(np, Nf, thr, b, steps, lr)
+        n_noise_cases[0] += 1 if w_noise > 0 else 0
+        meas.see('abgc.mass' + ('.noise-denominator' if w_noise > 0 else '.illcond' if illc else ''), abs(mass - 1))
+        if w_noise > 0:
+            meas.see('abgc.mass.noise-denominator / (2 x weight of those nodes)', abs(mass - 1) / (2 * w_noise))
         meas.see(f'abgc.mean.steps>={[s for s, _ in MEAN_TOL_BY_STEPS if steps >= s][0]}' + ('.capped' if capped else ''),
                  abs(mean - m) / n)
         # alpha = numer/denom is a ratio of two cancellation-prone differences; at nodes where the conditional mean is
         # << 1e-6 (or within 1e-6 of n) it is rounding noise of size up to ~1e9 and the mass alpha*S + (1-alpha) is
         # only accurate to |alpha|*1e-16: those cases get the loose tolerance (measured worst 2e-7)
-        if not (abs(mass - 1) <= (1e-4 if illc else TOL_MASS_GC)):
-            ctx.violation('copula adjusted-binomial distribution does not sum to one', dict(cs, mass=mass), clause='mass-one')
-        if not (abs(mean - m) <= max(mean_tol(steps), 1e-4 if illc else 0.0) * n):
+        # nodes whose denominator is pure rounding noise (ab_noise_nodes): the node's law is off by at most ~1 in mass (alpha is
+        # huge only when the code's p rounds to exactly 0 or 1: the binomial is then a unit vector, S = 1 exactly, and
+        # fl(alpha + fl(1 - alpha)) is within ulp(alpha) <= 2 of 1 for alpha < 2^54 and equal to 0 above): a deviation within
+        # 2 x (weight of those nodes) on top of the normal tolerance is that known defect, anything larger is not excused
+        tol_mass = 1e-4 if illc else TOL_MASS_GC
+        if not (abs(mass - 1) <= tol_mass):
+            ctx.violation('copula adjusted-binomial distribution does not sum to one', dict(cs, mass=mass, weight_of_noise_nodes=w_noise),
+                          finding=(NOISE_ID
+                                   if w_noise > 0 and abs(mass - 1) <= tol_mass + 2 * w_noise else None), clause='mass-one')
+        tol_mean = max(mean_tol(steps), 1e-4 if illc else 0.0) * n
+        if not (abs(mean - m) <= tol_mean):
             ctx.violation('copula adjusted-binomial distribution: mean differs from sum p_i*l_i',
-                          dict(cs, mean=mean, expected=m),
-                          finding='C17/adj-binomial-round-not-floor' if capped else None, clause='mean')
+                          dict(cs, mean=mean, expected=m, weight_of_noise_nodes=w_noise),
+                          finding=('C17/adj-binomial-round-not-floor' if capped else
+                                   'C17/adj-binomial-alpha-denominator-noise'
+                                   if w_noise > 0 and abs(mean - m) <= tol_mean + 2 * n * w_noise else None), clause='mean')
         if t < (40 if quick else 400):
             ops.append(f'ABGC {steps} {n} {fl(lr)} {fl(b)} {fl(thr)}')
+            if w_noise > 0:
+                extra_atol[len(checks)] = 2 * w_noise       # the model's p rounds differently from the Numba kernel's
             checks.append(('loss_dbn_hetero_adj_binomial', d, cs))
     ctx.count('loss_dbn_hetero_adj_binomial', n_cases, n_cases)
+    ctx.cov['components']['loss_dbn_hetero_adj_binomial']['cases_with_noise_denominator_nodes'] = n_noise_cases[0]
 
     # =============================================================== 4. tranche survival, all method enums
     rng = ctx.rng('tranche')
@@ -392,7 +438,10 @@ def run(ctx):
                          beta=beta, num_integration_steps=steps, attachment_points=ks, tranche_EL_t1=el1, tranche_EL_t2=el2)
             is_gcd = (name == 'RECURSION' and len(set(R.tolist())) > 1)
             if bad:
-                ctx.violation(f'tranche survival ({name}) raised {bad}', cs, clause='callable')
+                # heterogeneous recoveries + RECURSION: the loss units are not integers (pair_gcd) and the kernel indexes past
+                # the distribution array; whatever that path does is classified on the mechanism, never on the value it read
+                ctx.violation(f'tranche survival ({name}) raised {bad}', cs, finding='C17/gcd-not-a-gcd' if is_gcd else None,
+                              clause='callable')
                 continue
             # nodes with sigma < 1e-6 and mu > k2 (the repaired branch of gauss_approx_tranche_loss): only a coverage tag now
             degen = gaussian_degenerate(np, Nf, norminvcdf, q1, q2, R, b, steps, ks) if name == 'GAUSSIAN' else False
@@ -401,7 +450,7 @@ def run(ctx):
                 # examined for heterogeneous recoveries (known finding); everything else about this path is untested
                 pel = float(((1 - q1) * (1 - R)).sum()) / n
                 tot = sum((ks[j + 1] - ks[j]) * el1[j] for j in range(len(el1)))
-                if abs(tot - pel) > 1e-4 * max(pel, 1e-3) + 1e-6:
+                if not (abs(tot - pel) <= 1e-4 * max(pel, 1e-3) + 1e-6):        # also NaN / inf read from beyond the array
                     ctx.violation('RECURSION tranche ELs with heterogeneous recoveries do not add up to the portfolio EL '
                                   '(loss units are formed with pair_gcd, which does not compute a gcd)',
                                   dict(cs, partition_sum=tot, portfolio_EL=pel), finding='C17/gcd-not-a-gcd',
@@ -416,6 +465,10 @@ def run(ctx):
                 lr_ = (1.0 - R) / n / (tl_ / n)
                 if any(ab_cap_nodes(np, Nf, np.array([norminvcdf(1.0 - x) for x in q]), b, steps, lr_) for q in (q1, q2)):
                     pfid = 'C17/adj-binomial-round-not-floor'
+                w_ab = {w_: ab_noise_nodes(np, Nf, np.array([norminvcdf(1.0 - x) for x in q]), b, steps, lr_)
+                        for w_, q in (('t1', q1), ('t2', q2))}
+            else:
+                w_ab = {'t1': 0.0, 't2': 0.0}
             tol_m = mean_tol(steps * (2 if (beta > 0.8 and name == 'RECURSION') else 1))
             for which, q, el in (('t1', q1, el1), ('t2', q2, el2)):
                 pel = float(((1 - q) * (1 - R)).sum()) / n
@@ -437,19 +490,34 @@ def run(ctx):
                     rel = abs(tot - target) / max(target, 1e-12)
                     meas.see('tranche.partition.GAUSSIAN.vs-reference' + ('.degen' if degen else ''), rel)
                 scale = target if name in ('GAUSSIAN', 'LHP') else float((1.0 - R).sum()) / n   # quadrature error is
-                if not (abs(tot - target) <= ptol * scale + 1e-9):                             # relative to the total loss
+                slack = 1e-9                                                                   # relative to the total loss
+                if name == 'LHP' and ks[-1] <= (pel / (float((1 - q).sum()) / n)) * (1 + 1e-12):
+                    # the partition telescopes to exp_min_lk(k_top); that is the exact p(1-r) only on the branch k >= 1-r. With
+                    # the top strike AT the maximal loss (all recoveries 0: 1-r = EL/p = 1 up to rounding) the comparison is
+                    # decided by the last bit of EL/p and the code may evaluate (1-r) M(c,-a,-beta) + k N(a) instead, whose
+                    # error is bounded by (1-r) eps_M + k eps_N: eps_N = 7.5e-8 (Abramowitz-Stegun 26.2.17, Hull's N), eps_M =
+                    # 6e-7 (Drezner-Wesolowsky 5-point rule built on that N: measured worst 5.2e-7 at |rho| = 0.7 against
+                    # adaptive quadrature, 1.4e-7 below 0.7)
+                    slack += (pel / (float((1 - q).sum()) / n)) * EPS_M + ks[-1] * EPS_N
+                    meas.see('tranche.partition-abs.LHP.top-strike-at-maximal-loss', abs(tot - target))
+                w_ = w_ab[which]
+                if not (abs(tot - target) <= ptol * scale + slack):
                     ctx.violation(f'{name}: width-weighted tranche expected losses do not add up to the portfolio EL',
-                                  dict(cs, at=which, partition_sum=tot, portfolio_EL=pel, reference=target), finding=pfid,
-                                  clause='partition-adds-up')
+                                  dict(cs, at=which, partition_sum=tot, portfolio_EL=pel, reference=target),
+                                  finding=pfid or (NOISE_ID if w_ > 0 and abs(tot - target) <= ptol * scale + slack + 2 * w_ * scale
+                                                   else None), clause='partition-adds-up')
                 rtol_ = {'RECURSION': 1e-7, 'ADJUSTED_BINOMIAL': 1e-7, 'GAUSSIAN': 1e-6, 'LHP': 2e-6}[name]
                 if not (lo >= -rtol_ and hi <= 1 + rtol_):
                     ctx.violation(f'{name}: tranche expected loss outside [0,1]', dict(cs, at=which, min=lo, max=hi),
-                                  finding=fid, clause='unit-interval')
+                                  finding=fid or (NOISE_ID if w_ > 0 and lo >= -rtol_ - 2 * w_ and hi <= 1 + rtol_ + 2 * w_ else None),
+                                  clause='unit-interval')
             dec = max(a - c for a, c in zip(el1, el2))
             meas.see(f'tranche.monotone.{name}' + ('.degen' if degen else ''), max(dec, 0.0))
             mt = {'RECURSION': 1e-7, 'ADJUSTED_BINOMIAL': 1e-6, 'GAUSSIAN': 1e-6, 'LHP': 2e-6}[name]
             if not (dec <= mt):
-                ctx.violation(f'{name}: tranche expected loss decreases in time', dict(cs, max_decrease=dec), finding=fid,
+                w_ = w_ab['t1'] + w_ab['t2']
+                ctx.violation(f'{name}: tranche expected loss decreases in time', dict(cs, max_decrease=dec),
+                              finding=fid or (NOISE_ID if w_ > 0 and dec <= mt + 2 * w_ else None),
                               clause='non-decreasing-in-time')
             # correspondence for the two modelled methods (homogeneous recoveries)
             if name == 'RECURSION' and t < (25 if quick else 250) and n * steps < 2e4:
@@ -471,6 +539,8 @@ def run(ctx):
                 thr = np.array([norminvcdf(1.0 - x) for x in q1])
                 for j in range(len(ks) - 1):
                     ops.append(f'TSA {f2b(ks[j])} {f2b(ks[j + 1])} {f2b(avg)} {steps} {n} {fl(lr)} {fl(b)} {fl(thr)}')
+                    if w_ab['t1'] > 0:
+                        extra_atol[len(checks)] = 2 * w_ab['t1']      # tranche loss per unit of misplaced mass <= 1
                     checks.append(('tranche_surv_prob_adj_binomial', np.array([1.0 - el1[j]]), dict(cs, tranche=j)))
     ctx.count('tranche_survival_all_methods', n_cases * 4, n_cases * 4,
               sample={'method': 'RECURSION', 'n': 125, 'beta': 0.5, 'attachment_points': [0, 0.03, 0.07, 0.1, 0.15, 0.3, 1.0]})
@@ -537,15 +607,17 @@ def run(ctx):
             ctx.broke(f'model driver failed: {str(e)[:300]}')
         if outs is not None:
             nbad = {}
-            for o, (comp, d, cs) in zip(outs, checks):
+            for j_, (o, (comp, d, cs)) in enumerate(zip(outs, checks)):
                 m = parse(o) if not o.startswith('bad') else []
                 if comp == 'adj_binomial':
                     den, m = (m[0], m[1:]) if m else (0.0, [])
                     if abs(den) < 1e-7:      # alpha = numer/denom ill-conditioned: not compared
                         continue
                 tol = TOL_MODEL_AB if comp in ('loss_dbn_hetero_adj_binomial', 'tranche_surv_prob_adj_binomial') else TOL_MODEL
+                if j_ in extra_atol:
+                    tol = (tol[0], tol[1] + extra_atol[j_])
                 ok, worst = close_arr(m, [float(x) for x in d], *tol)
-                meas.see(f'model.{comp}', worst if worst == worst else 1.0)
+                meas.see(f'model.{comp}' + ('.noise-denominator' if j_ in extra_atol else ''), worst if worst == worst else 1.0)
                 if not ok:
                     nbad[comp] = nbad.get(comp, 0) + 1
                     if nbad[comp] <= 2:
@@ -680,6 +752,42 @@ def ab_illcond_nodes(np, Nf, thr, b, steps, lr):
     return bool((np.abs(va - term) < 1e-6 * np.maximum(va, 1e-300)).any())
 
 
+U53 = 2.0 ** -53
+
+
+def ab_noise_nodes(np, Nf, thr, b, steps, lr):
+    """classifier of C17/adj-binomial-alpha-denominator-noise: total quadrature weight (c*sum w_k) of the nodes at which the
+    denominator of alpha, v_approx - term, is not determined by the inputs beyond the rounding of the code's own
+    p = sum(l_i p_i)/n, i.e. |denom| <= U with the first-order worst-case bound
+        dp    = (n+2) u sum|l_i p_i| / n                          (recursive / re-associated summation of n terms, u = 2^-53)
+        dva   = S2 |1-2p| dp + S2 dp^2 + (n+3) u va + u S2 p      (v_approx = S2 p (1-p), S2 = sum l_i^2)
+        dterm = 8 (n dp + u m) + 8 u                              (|d term/d mean| <= 4|da| + |da| + |db| <= 8, |da| <= 1.5, |db| <= 0.5)
+        U     = dva + dterm.
+    There alpha = numer/denom is noise of any sign and size (denom is clamped to 1e-30 when it cancels exactly: alpha up to
+    1e18) and alpha*B + (1-alpha) at the two mean points loses |alpha| u: the node's "distribution" is off by O(1).
+    Returns 0.0 when there is no such node."""
+    zs, ws, cq = quad_nodes(np, steps)
+    noise = ab_noise_mask(np, cond_probs(np, Nf, thr, b, zs), lr)
+    return float(cq * ws[noise].sum())
+
+
+def ab_noise_mask(np, pz, lr):
+    """rows of pz (one vector of conditional default probabilities per row) with |v_approx - term| <= U (see ab_noise_nodes)"""
+    n = pz.shape[1]
+    s2 = float((lr * lr).sum())
+    pb = (pz * lr[None, :]).sum(axis=1) / n
+    dp = (n + 2) * U53 * np.abs(pz * lr[None, :]).sum(axis=1) / n
+    va = s2 * pb * (1 - pb)
+    m = pb * n
+    above = np.minimum(np.round(m + 1), n)
+    below = np.round(m)
+    da, db = above - m, below - m
+    term = da * da + (db * db - da * da) * da
+    dva = s2 * np.abs(1 - 2 * pb) * dp + s2 * dp * dp + (n + 3) * U53 * np.abs(va) + U53 * s2 * pb
+    dterm = 8.0 * (n * dp + U53 * m) + 8.0 * U53
+    return np.abs(va - term) <= dva + dterm
+
+
 def ab_cap_nodes(np, Nf, thr, b, steps, lr):
     """classifier of C17/adj-binomial-round-not-floor for copula mixtures (clause mean): at some quadrature node the
     conditional mean number of losses exceeds n - 0.5, where round() puts both adjustment points at n"""
@@ -747,6 +855,22 @@ def lhplus_reference(np, p, r, h, b, p0, r0, h0, b0, k, grid=[None]):
     return emin, pgt
 
 
+PHI3_ID = 'C17/phi3-zero-steps-division'
+
+
+def phi3_window(args, k):
+    """classifier of C17/phi3-zero-steps-division: one of the two upper limits a, b that LHPlusModel.exp_min_lk passes to
+    phi3 lies in (-7.001, -6.999), where phi3's step count int((b1 + 7)/0.001) is 0 and dx = (b1 + 7)/0 raises"""
+    from financepy.utils.math import norminvcdf
+    p, r, h, beta, p0, r0, h0, beta_0 = args
+    c = norminvcdf(p)
+    out = []
+    for arg in (k / (1.0 - r) / h, (k - (1.0 - r0) * h0) / (1.0 - r) / h):
+        if 0.0 < arg < 1.0:
+            out.append((c - math.sqrt(1.0 - beta * beta) * norminvcdf(arg)) / beta)
+    return any(-7.001 - 1e-9 < x < -6.999 + 1e-9 for x in out)
+
+
 def lhplus(ctx, meas, np, quick, LHP):
     """LHPlusModel: E[min(L,k)] closed forms, P(L>k), the numerically integrated tranche survival probability."""
     from financepy.models.gauss_copula_lhplus import LHPlusModel
@@ -776,7 +900,10 @@ def lhplus(ctx, meas, np, quick, LHP):
             mdl_later = LHPlusModel(min(0.9, p * 1.5), r, h, b, min(0.9, p0 * 1.5), r0, h0, b0)   # later horizon: higher PDs
             el_later = [float(mdl_later.exp_min_lk(k)) for k in ks]
         except Exception as e:  # noqa: BLE001
-            ctx.violation(f'LHPlus closed form raised {type(e).__name__}: {e} inside its domain', cs, clause='callable')
+            later = [min(0.9, p * 1.5), r, h, b, min(0.9, p0 * 1.5), r0, h0, b0]
+            hit = isinstance(e, ZeroDivisionError) and any(phi3_window(a_, k) for a_ in (args, later) for k in ks)
+            ctx.violation(f'LHPlus closed form raised {type(e).__name__}: {e} inside its domain', cs,
+                          finding=PHI3_ID if hit else None, clause='callable')
             continue
         cs.update(exp_min_lk=el, prob_loss_gt_k=pg)
         for k, a, a2, g in zip(ks, el, el2, pg):
@@ -811,7 +938,13 @@ def lhplus(ctx, meas, np, quick, LHP):
             ctx.violation('LHPlus expected tranche loss decreases when default probabilities increase', dict(cs, later=el_later),
                           clause='non-decreasing-in-time')
         # partition: at the top of the pool the expected loss is the portfolio EL up to the extra asset's own loss
-        top = float(mdl.exp_min_lk(hi * (1 - 1e-9)))
+        try:
+            top = float(mdl.exp_min_lk(hi * (1 - 1e-9)))
+        except Exception as e:  # noqa: BLE001
+            hit = isinstance(e, ZeroDivisionError) and phi3_window(args, hi * (1 - 1e-9))
+            ctx.violation(f'LHPlus closed form raised {type(e).__name__}: {e} just below the top of the pool',
+                          dict(cs, k=hi * (1 - 1e-9)), finding=PHI3_ID if hit else None, clause='callable')
+            continue
         meas.see('lhplus.partition-top' + ('.h0>0' if h0 > 0 else '.h0=0'), max(top - total_el, total_el - p0 * h0 * (1 - r0) - top, 0.0))
         if not (total_el - p0 * h0 * (1 - r0) - 5e-5 <= top <= total_el + 5e-5):
             ctx.violation('LHPlus: E[min(L, top of the pool)] is not within [EL - p0 h0 (1-r0), EL] of the portfolio EL',
@@ -868,6 +1001,36 @@ def lhplus(ctx, meas, np, quick, LHP):
         ctx.violation(f'LHPlusModel.tranche_survival_prob raised {type(e).__name__}: {e}',
                       {'ctor': [0.05, 0.4, 0.95, 0.5, 0.03, 0.4, 0.05, 0.3], 'k1': 0.05, 'k2': 0.1}, clause='callable')
     ctx.count('LHPlusModel_entry_conditions', 2, 2)
+    # phi3 (trivariate normal by integration from -7 in steps of 0.001): an upper limit within 0.001 of -7 gives 0 steps
+    from financepy.utils.math import phi3, norminvcdf
+    n_phi3 = 0
+    for b1 in (-6.9995, -7.0, -7.0005, -6.99901, -7.00099, -6.998, -7.002, -8.0):
+        n_phi3 += 1
+        try:
+            v = float(phi3(b1, 0.3, -0.2, 0.5, 0.4, 0.2))
+            if not (-1e-9 <= v <= 1e-9):                 # P(X1 <= b1, ...) <= Phi(-6.998) = 1.3e-12
+                ctx.violation('phi3 with an upper limit near -7 is not ~0', {'b1': b1, 'b2': 0.3, 'b3': -0.2, 'r12': 0.5, 'r13': 0.4,
+                                                                             'r23': 0.2, 'returned': v}, clause='lhplus-expectation')
+        except ZeroDivisionError as e:
+            ctx.violation(f'phi3 raises ZeroDivisionError ({e}): num_points = int((b1 + 7)/0.001) = 0 and dx = (b1 + 7)/num_points',
+                          {'b1': b1, 'b2': 0.3, 'b3': -0.2, 'r12': 0.5, 'r13': 0.4, 'r23': 0.2},
+                          finding=PHI3_ID if -7.001 < b1 < -6.999 else None, clause='callable')
+    # the same through LHPlusModel.exp_min_lk: strike at which a = (c - sqrt(1-beta^2) NormSInv(k/((1-r)h)))/beta = -6.9995
+    p_, r_, beta_ = 0.05, 0.4, 0.5
+    inva = (norminvcdf(p_) + 6.9995 * beta_) / math.sqrt(1 - beta_ * beta_)
+    k_ = 0.5 * math.erfc(-inva / math.sqrt(2.0)) * (1 - r_)
+    wit = [p_, r_, 1.0, beta_, 0.03, 0.4, 0.0, 0.5]
+    n_phi3 += 1
+    try:
+        v = float(LHPlusModel(*wit).exp_min_lk(k_))
+        ref, _ = lhplus_reference(np, *wit, k_)
+        if not (abs(v - ref) <= 5e-5):
+            ctx.violation('LHPlus exp_min_lk differs from E[min(L,k)] computed by direct integration over the factor',
+                          {'ctor': wit, 'k': k_, 'exp_min_lk': v, 'reference': ref}, clause='lhplus-expectation')
+    except Exception as e:  # noqa: BLE001
+        ctx.violation(f'LHPlusModel.exp_min_lk raised {type(e).__name__}: {e} inside its domain', {'ctor': wit, 'k': k_},
+                      finding=PHI3_ID if isinstance(e, ZeroDivisionError) and phi3_window(wit, k_) else None, clause='callable')
+    ctx.count('phi3_upper_limit_near_minus_7', n_phi3, n_phi3)
 
 
 def products(ctx, meas, np, quick):
